@@ -299,7 +299,17 @@ class Ctx:
         if vs is None:
             raise Unsupported("unknown enum type %s" % v.ty)
         if v.variant is None:
-            k = self.choose(len(vs))
+            d = v.attrs.get("discr")
+            if d is None and v.name is not None:
+                # named by access path: clones of the same symbolic input share the discriminant variable
+                d = z3.BitVec(v.name + ".discr", 64)
+                v.attrs["discr"] = d
+                self.assume(z3.ULT(d, z3.BitVecVal(len(vs), 64)))
+            if d is not None:
+                # pick among the variants the path condition still allows
+                k = self.branch([d == z3.BitVecVal(i, 64) for i in range(len(vs))])
+            else:
+                k = self.choose(len(vs))
             v.variant = vs[k][0]
             self.trace.append(("variant", v.name, v.variant))
         for i, (n, _) in enumerate(vs):
@@ -376,6 +386,12 @@ class Ctx:
                 raise Unsupported("downcast of %r" % (v,))
             if v.variant is None:
                 v.variant = proj[1]      # dataflow guarantees the variant was tested before
+                self.trace.append(("variant", v.name, v.variant))
+                d = v.attrs.get("discr")
+                if d is not None:
+                    i = self.src.variant_index(v.ty, proj[1])
+                    if i is not None:
+                        self.assume(d == z3.BitVecVal(i, 64))
             elif v.variant != proj[1]:
                 raise PathEnd("infeasible", "downcast %s of %s" % (proj[1], v.variant))
             return v, parent_set
@@ -663,6 +679,18 @@ class Ctx:
             if isinstance(v, Lazy):
                 v = self.as_agg(v)
                 self.write(c, p, v)
+            if isinstance(v, Agg) and v.variant is None and v.name is not None:
+                # unknown enum: keep the discriminant symbolic; the following switchInt forks only over its explicit
+                # targets (plus "otherwise") instead of over every variant
+                vs = self.src.variants(v.ty)
+                if vs is None:
+                    raise Unsupported("unknown enum type %s" % v.ty)
+                d = v.attrs.get("discr")
+                if d is None:
+                    d = z3.BitVec(v.name + ".discr", 64)
+                    v.attrs["discr"] = d
+                    self.assume(z3.ULT(d, z3.BitVecVal(len(vs), 64)))
+                return Int(d, 64, True)
             _, _, i = self.variant_of(v)
             return Int(i, 64, True)
         if m and m.group(1) in ("Len", "PtrMetadata"):
